@@ -16,13 +16,13 @@ def run_config(chk, tier, cfgname):
                         "debt before/after a barrier-only callback (C10 polarity clause)"]
     n = 0
     for t in ("backward_barrier", "backward_barrier_weak", "forward_barrier", "forward_barrier_weak", "root_barrier"):
-        n += typestate.apply(chk, t + "-table", t)
-    na = typestate.apply(chk, "adoption-paths", "adopt")
-    nr = typestate.apply(chk, "root-paths", "root_paths")
+        n += typestate.apply(chk, t + "-table", t, aspects=("safety", "panic"))
+    na = typestate.apply(chk, "adoption-paths", "adopt", aspects=("safety", "panic"))
+    nr = typestate.apply(chk, "root-paths", "root_paths", aspects=("safety", "panic"))
     paths = {r.pre["path"] for r in T.get("adopt")} | {r.pre["path"] for r in T.get("root_paths")
                                                        if r.pre["path"] in ("Arena::mutate_root", "Arena::map_root", "Arena::try_map_root")}
     chk.floor("adoption-path-instances", len(paths), 11)
-    typestate.report_automaton(chk, ["PANIC", "S7", "S2", "S4"])
+    typestate.report_automaton(chk, ["PANIC", "S7", "S2"])
 
 
 def run(chk, tier):
